@@ -399,6 +399,14 @@ func c08(c *core.Ctx, r *core.Report) {
 		return
 	}
 	c08Commit(c, r, proc, call)
+	frs, fruns, fund := furtherPropsTable(c, proc, fn)
+	r.Count("further_matching_table_runs", fruns)
+	if fund != "" {
+		r.Undecided("C08.R2", "further-matching-table:"+proc.Name(), c.FnPos(proc.Props), "abstract interpretation left the model: "+fund)
+	} else {
+		smallModelCheck(c, r, "C08.R2", "further-matching-table:"+proc.Name(), proc.Props, 2)
+		frs.report(c, r, proc.Props, func(row string) string { return "C08.R2" }, "further-matching-table:"+proc.Name(), furtherRows)
+	}
 	maxLen := 2
 	if c.Tier == "thorough" {
 		maxLen = 3
@@ -411,6 +419,7 @@ func c08(c *core.Ctx, r *core.Report) {
 		return
 	}
 	r.Exhaustive = true
+	isSelfTable(c, r, "C08.R3")
 	smallModelCheck(c, r, "C08.R3", cons, fn, int64(maxLen))
 	rs.report(c, r, fn, func(row string) string {
 		if row == "permutation-invariant" {
@@ -515,4 +524,154 @@ func c08Commit(c *core.Ctx, r *core.Report, p *procInfo, call *ssa.Call) {
 		}
 	}
 	r.Check(bad == "", "C08.R2", cons, c.Pos(call.Pos()), "on every non-error path the candidate list of the property is replaced by the narrowing result or cleared "+bad)
+}
+
+var furtherRows = map[string]string{
+	"narrowed-once":     "every component property is narrowed exactly once, on its own candidate list, and ends up holding the narrowing result",
+	"foreign-untouched": "configuration properties are neither narrowed nor modified",
+	"optional-cleared":  "an optional point for which nothing qualifies ends up with no candidates and the next property is still processed",
+	"required-error":    "a required point for which nothing qualifies, or any other narrowing error, makes the processor fail",
+}
+
+// furtherPropsTable interprets the further-matching processor's PostProcessProperties on pairs of properties.
+func furtherPropsTable(c *core.Ctx, p *procInfo, narrowing *ssa.Function) (rs rows, runs int, undecided string) {
+	rs = rows{}
+	prop := c.Named("component_definition", "Property")
+	isReq := c.DeclaredMethod(prop, "IsRequired")
+	str := c.DeclaredMethod(prop, "String")
+	type pc struct {
+		ptype    string
+		ninj     int
+		required bool
+		outcome  string // ok | err-empty | err-nonempty
+	}
+	var configs []pc
+	for _, pt := range []string{"Component", "Configuration"} {
+		for _, n := range []int{0, 1, 2} {
+			for _, rq := range []bool{true, false} {
+				for _, oc := range []string{"ok", "err-empty", "err-nonempty"} {
+					if pt == "Configuration" && (n != 1 || oc != "ok" || !rq) {
+						continue
+					}
+					configs = append(configs, pc{pt, n, rq, oc})
+				}
+			}
+		}
+	}
+	for _, c1 := range configs {
+		for _, c2 := range configs {
+			cfg := []pc{c1, c2}
+			var props []*absint.Tok
+			var orig []*absint.List
+			var calls []string
+			build := func() (absint.Oracle, []absint.Value, []absint.Value) {
+				calls, props, orig = nil, nil, nil
+				t := newTbl(c)
+				list := &absint.List{}
+				for i, k := range cfg {
+					pr := absint.NewTok(fmt.Sprintf("prop%d", i), "property")
+					pr.Fields["PropertyType"] = absint.Str(k.ptype)
+					inj := &absint.List{IsNil: k.ninj == 0}
+					for j := 0; j < k.ninj; j++ {
+						inj.Elems = append(inj.Elems, absint.NewTok(fmt.Sprintf("cand%d.%d", i, j), "cand"))
+					}
+					pr.Fields["Injects"] = inj
+					pr.Attr["idx"] = absint.Int(i)
+					props = append(props, pr)
+					orig = append(orig, inj)
+					list.Elems = append(list.Elems, pr)
+				}
+				t.callee[narrowing] = func(ip *absint.Interp, a []absint.Value) absint.Value {
+					pr, _ := a[0].(*absint.Tok)
+					i := -1
+					if pr != nil && pr.Attr["idx"] != nil {
+						i = int(pr.Attr["idx"].(absint.Int))
+					}
+					same := i >= 0 && a[1] == absint.Value(orig[i])
+					calls = append(calls, fmt.Sprintf("%d:%v", i, same))
+					if i < 0 {
+						return absint.Tuple{absint.Nil{}, t.newErr("narrow")}
+					}
+					switch cfg[i].outcome {
+					case "ok":
+						return absint.Tuple{&absint.List{Elems: []absint.Value{absint.NewTok(fmt.Sprintf("narrowed%d", i), "cand")}}, absint.Nil{}}
+					case "err-empty":
+						return absint.Tuple{&absint.List{IsNil: true}, t.newErr("narrow")}
+					}
+					return absint.Tuple{&absint.List{Elems: []absint.Value{absint.NewTok("partial", "cand")}}, t.newErr("narrow")}
+				}
+				if isReq != nil {
+					t.callee[isReq] = func(ip *absint.Interp, a []absint.Value) absint.Value {
+						pr := a[0].(*absint.Tok)
+						return absint.Bool(cfg[int(pr.Attr["idx"].(absint.Int))].required)
+					}
+				}
+				if str != nil {
+					t.callee[str] = func(ip *absint.Interp, a []absint.Value) absint.Value { return &absint.Opaque{Why: "text"} }
+				}
+				if isSelfFn := c.DeclaredMethod(c.Named("component_definition", "Meta"), "IsSelf"); isSelfFn != nil {
+					t.callee[isSelfFn] = func(ip *absint.Interp, a []absint.Value) absint.Value { return absint.Bool(false) }
+				}
+				return t, []absint.Value{absint.NewTok("proc", "processor"), list, absint.NewTok("component", "component"), absint.NewTok("name", "key")}, nil
+			}
+			check := func(ip *absint.Interp, out absint.Outcome) {
+				var inj []string
+				for _, pr := range props {
+					inj = append(inj, absint.Show(pr.Fields["Injects"]))
+				}
+				w := fmt.Sprintf("properties=%+v narrowing-calls=%v injects-after=%v => %s", cfg, calls, inj, showOutcome(out))
+				if out.Panic != nil {
+					rs.fail("narrowed-once", "PANIC "+w)
+					return
+				}
+				isErr := len(out.Ret) == 2 && isErrTok(out.Ret[1])
+				var wantCalls []string
+				stopped := false
+				for i, k := range cfg {
+					if stopped {
+						break
+					}
+					if k.ptype != "Component" {
+						rs.hit("foreign-untouched")
+						if props[i].Fields["Injects"] != absint.Value(orig[i]) {
+							rs.fail("foreign-untouched", w)
+						}
+						continue
+					}
+					wantCalls = append(wantCalls, fmt.Sprintf("%d:true", i))
+					switch {
+					case k.outcome == "ok":
+						rs.hit("narrowed-once")
+						if inj[i] != fmt.Sprintf("[narrowed%d]", i) {
+							rs.fail("narrowed-once", w)
+						}
+					case k.outcome == "err-empty" && !k.required:
+						rs.hit("optional-cleared")
+						if l, ok := props[i].Fields["Injects"].(*absint.List); !ok || len(l.Elems) != 0 {
+							rs.fail("optional-cleared", w)
+						}
+					default:
+						rs.hit("required-error")
+						stopped = true
+					}
+				}
+				if strings.Join(calls, " ") != strings.Join(wantCalls, " ") {
+					rs.fail("narrowed-once", "narrowing calls differ from "+strings.Join(wantCalls, " ")+": "+w)
+				}
+				if stopped != isErr {
+					if stopped {
+						rs.fail("required-error", w)
+					} else {
+						rs.fail("optional-cleared", "unexpected error: "+w)
+					}
+				}
+			}
+			n, u := runTable(c, p.Props, build, check)
+			runs += n
+			if u != "" {
+				return rs, runs, u
+			}
+		}
+	}
+	return
 }
